@@ -24,11 +24,8 @@ pub broadcast axiom fn axiom_string_view_injective(a: String, b: String)
 // (each unit file has its one module-level `broadcast use`)
 
 // ---- A1: uuid::Uuid -- an opaque Copy value with structural equality -----------------------------
-#[derive(Eq, Clone, Copy, Debug, Hash)]
+#[derive(PartialEq, Eq, Clone, Copy, Debug, Hash)]
 pub struct Uuid(pub u128);
-impl PartialEq for Uuid {
-    fn eq(&self, other: &Self) -> (r: bool) { self.0 == other.0 }
-}
 impl vstd::std_specs::cmp::PartialEqSpecImpl for Uuid {
     open spec fn obeys_eq_spec() -> bool { true }
     open spec fn eq_spec(&self, other: &Self) -> bool { *self == *other }
